@@ -359,6 +359,108 @@ fn fractional_index_case(ctx: &mut Ctx, rng: &mut Rng) {
     }
 }
 
+/// Wide and deep shapes: lists, argument lists and subscript chains around the sizes at which inline buffers
+/// spill (8/9, 16/17, 32/33). One program per (shape, size).
+fn wide_program(idx: u64) -> Option<Program> {
+    const SIZES: &[usize] = &[7, 8, 9, 10, 15, 16, 17, 31, 32, 33, 65];
+    let shape = (idx as usize) / SIZES.len();
+    let n = SIZES[(idx as usize) % SIZES.len()];
+    let xs = simple("Xs");
+    let mut ss: Vec<Stmt> = Vec::new();
+    match shape {
+        0 => {
+            // rock with a list of n values, read the last and the one past it
+            ss.push(Stmt::Push { array: pvar(&xs), value: Some(PushRhs::List((0..n).map(|i| num(i as f64 + 0.5)).collect())) });
+            ss.push(say(var(&xs)));
+            ss.push(say(Expr::Prim(Prim::Sub(Box::new(pvar(&xs)), Box::new(Prim::Lit(Lit::Num((n - 1) as f64)))))));
+            ss.push(say(Expr::Prim(Prim::Sub(Box::new(pvar(&xs)), Box::new(Prim::Lit(Lit::Num(n as f64)))))));
+        }
+        1 => {
+            // a chain of n subscripts, written then read, then one level less (an array: prints its length)
+            let chain = |depth: usize| {
+                let mut p = pvar(&xs);
+                for d in 0..depth {
+                    p = Prim::Sub(Box::new(p), Box::new(Prim::Lit(Lit::Num((d % 3) as f64))));
+                }
+                p
+            };
+            let lhs = match chain(n) {
+                Prim::Sub(a, k) => Lhs::Sub(a, k),
+                _ => return None,
+            };
+            ss.push(Stmt::Assign { dest: lhs, op: None, value: vec![num(77.0)] });
+            ss.push(say(Expr::Prim(chain(n))));
+            ss.push(say(Expr::Prim(chain(n - 1))));
+            ss.push(say(var(&xs)));
+        }
+        2 => {
+            // a function of n parameters called with n arguments, and with n - 1
+            let f = simple("Wide");
+            let params: Vec<Name> = (0..n).map(|i| Name::Simple(format!("Par{}", letters(i)))).collect();
+            let body = vec![
+                say(var(&params[0])),
+                say(var(&params[n - 1])),
+                Stmt::Return { value: bin(BinOp::Plus, var(&params[n / 2]), var(&params[n - 1])) },
+            ];
+            ss.push(Stmt::Function { name: f.clone(), params, body });
+            ss.push(say(Expr::Prim(Prim::Call(f.clone(), (0..n).map(|i| num(i as f64)).collect()))));
+            ss.push(say(Expr::Prim(Prim::Call(f, (0..n - 1).map(|i| num(i as f64)).collect()))));
+        }
+        3 => {
+            // compound assignment with a list of n operands; a sum with a list of n
+            ss.push(put(num(1.0), &xs));
+            ss.push(Stmt::Assign { dest: Lhs::Ident(Ident::Name(xs.clone())), op: Some(BinOp::Plus), value: (0..n).map(|i| num(i as f64)).collect() });
+            ss.push(say(var(&xs)));
+            ss.push(say(Expr::Bin(BinOp::Minus, Box::new(num(1000.0)), (0..n).map(|i| num(i as f64)).collect())));
+        }
+        4 => {
+            // join of n strings, cut of a string of n characters
+            ss.push(Stmt::Push { array: pvar(&xs), value: Some(PushRhs::List((0..n).map(|i| strlit(&letters(i))).collect())) });
+            ss.push(Stmt::Mutation { op: MutOp::Join, operand: pvar(&xs), dest: None, param: Some(strlit("-")) });
+            ss.push(say(var(&xs)));
+            ss.push(Stmt::Mutation { op: MutOp::Cut, operand: pvar(&xs), dest: None, param: None });
+            ss.push(say(var(&xs)));
+            ss.push(say(Expr::Prim(Prim::Sub(Box::new(pvar(&xs)), Box::new(Prim::Lit(Lit::Num((n - 1) as f64)))))));
+        }
+        5 => {
+            // n rolls from a queue of n - 1
+            ss.push(Stmt::Push { array: pvar(&xs), value: Some(PushRhs::List((0..n - 1).map(|i| num(i as f64)).collect())) });
+            for _ in 0..n {
+                ss.push(say(Expr::Prim(Prim::Pop(Box::new(pvar(&xs))))));
+            }
+            ss.push(say(var(&xs)));
+        }
+        6 => {
+            // reads far beyond the end, of an array and of a string: missing elements, not errors
+            let far = [1e9, 4294967296.0, 9007199254740992.0, 18446744073709551615.0, 18446744073709551616.0, 1e30, 1e300, f64::MAX];
+            let k = far[(idx as usize) % far.len()];
+            ss.push(Stmt::Push { array: pvar(&xs), value: Some(PushRhs::List((0..(n % 5)).map(|i| num(i as f64)).collect())) });
+            ss.push(say(Expr::Prim(Prim::Sub(Box::new(pvar(&xs)), Box::new(Prim::Lit(Lit::Num(k)))))));
+            ss.push(put(bin(BinOp::Divide, num(1.0), num(0.0)), &simple("Far")));
+            ss.push(say(Expr::Prim(Prim::Sub(Box::new(pvar(&xs)), Box::new(pvar(&simple("Far")))))));
+            ss.push(put(strlit("text"), &simple("Text")));
+            ss.push(say(Expr::Prim(Prim::Sub(Box::new(pvar(&simple("Text"))), Box::new(Prim::Lit(Lit::Num(k)))))));
+            ss.push(say(Expr::Prim(Prim::Sub(Box::new(pvar(&simple("Text"))), Box::new(pvar(&simple("Far")))))));
+            ss.push(say(var(&xs)));
+        }
+        _ => return None,
+    }
+    Some(Program::single(ss))
+}
+
+fn letters(i: usize) -> String {
+    let mut s = String::new();
+    let mut i = i;
+    loop {
+        s.push((b'a' + (i % 26) as u8) as char);
+        i /= 26;
+        if i == 0 {
+            break;
+        }
+    }
+    s
+}
+
 pub fn run(ctx: &mut Ctx) {
     if ctx.miri {
         ctx.cases("miri", ctx.nshards as u64, |ctx, rng, _| {
@@ -368,6 +470,15 @@ pub fn run(ctx: &mut Ctx) {
         return;
     }
     ctx.cases("fractional_index", 3_000, |ctx, rng, _| fractional_index_case(ctx, rng));
+    ctx.cases("wide_and_deep", 77, |ctx, rng, idx| {
+        if let Some(p) = wide_program(idx) {
+            let c = exec_compare(ctx, "wide", &p, b"", &Spelling::canonical(), rng);
+            match c.verdict {
+                Verdict::Agree => ctx.count("wide_and_deep_programs_agreed"),
+                _ => ctx.count("wide_and_deep_programs_not_decided"),
+            }
+        }
+    });
     let n = ctx.size(12_000, 400_000);
     let max_ops = if ctx.is_quick() { 14 } else { 40 };
     ctx.cases("histories", n, |ctx, rng, _| {
